@@ -203,7 +203,31 @@ def check_reader():
     return out
 
 
+def check_percentages():
+    """a proportion written as a percentage is shown as format_number(100 * value) + the written '%...' text, exact when it can be"""
+    from recipe_grid.recipe import Proportion
+    from recipe_grid.renderer.html import render_proportion
+    import html as pyhtml
+    out = []
+    vals = [Fraction(1, 3), Fraction(1, 6), Fraction(1, 7), Fraction(2, 3), Fraction(1, 12), Fraction(1, 8), Fraction(1, 2), Fraction(1, 4), Fraction(3, 8), Fraction(1, 16),
+            Fraction(1, 800), Fraction(5, 6), Fraction(1, 9), 0.5, 0.25, 0.125, 1, 2, Fraction(29, 100), Fraction(333, 1000), Fraction(1, 300), Fraction(7, 5), 0.29, 0.07]
+    for v in vals:
+        for prep in ("%", " %", "% of the"):
+            text = " ".join(pyhtml.unescape(re.sub(r"<[^>]*>", "", render_proportion(Proportion(v, True, None, prep)))).replace("\u2044", "/").split())
+            want = " ".join((format_number(v * 100) + prep).split())
+            if text != want:
+                out.append(("C11:percentage-wrong", "Proportion(%r, percentage) shown as %r, expected %r" % (v, text, want)))
+                break
+    return out
+
+
 def oracle(run):
+    run.case(("percentages",), True, kind="percentages")
+    seen = set()
+    for sig, detail in check_percentages():
+        if sig not in seen:
+            seen.add(sig)
+            run.violate(sig, detail, {"percentages": True})
     run.case(("reader",), True, kind="reader")
     for sig, detail in check_reader():
         run.violate(sig, detail, {"reader": True})
@@ -222,6 +246,11 @@ def oracle(run):
 
 
 def replay(run, obj):
+    if obj["replay"].get("percentages"):
+        res = check_percentages()
+        for r in res:
+            print(*r)
+        return bool(res)
     if obj["replay"].get("reader"):
         res = check_reader()
         for r in res:
